@@ -30,11 +30,9 @@ pub(crate) fn get_backup_path(file: &Path) -> Result<PathBuf> {
 pub(crate) fn needs_backup(file: &Path, conf: &Config) -> Result<bool> {
     let need = match conf.backup {
         Backup::None => false,
-        Backup::Auto if file.exists() => {
-            has_backup(file)?
-        }
-        Backup::Numbered if file.exists() => true,
-        _ => false,
+        // try_exists(): a stat that fails is an error, not "absent".
+        Backup::Auto => file.try_exists()? && has_backup(file)?,
+        Backup::Numbered => file.try_exists()?,
     };
     Ok(need)
 }
